@@ -126,6 +126,25 @@ def run(tier, seed, t0):
     nbeh_nontrivial = len([b for b in behs if len(b) >= 2])
     v = vlib.Verdict(PROP)
     v.absorb(bad)
+    # "strictly in reaction ... returns a usable connection": a server that takes long to answer Open (2.5 of ITS
+    # proposed heartbeat intervals) while the client asked for less (0 = none, or a longer silence allowance): the
+    # attempt must neither fail nor emit a frame of its own accord before OpenOk. Real time, C17's machinery.
+    from checks import c17
+    vlib.build_harness(bin=c17.BIN)
+    slow = [dict(id=970, pattern="c16-slow-open-client0-server1", ch=0, sh=1, sched=[], end=4000, open_delay=2500),
+            dict(id=971, pattern="c16-slow-open-client0-server1-talks", ch=0, sh=1, sched=c17._every("shb", 900, 3600),
+                 end=4000, open_delay=2500),
+            dict(id=972, pattern="c16-slow-open-client1-server0", ch=1, sh=0, sched=c17._every("shb", 400, 3600), end=4000,
+                 open_delay=1500)]
+    if thorough:
+        slow.append(dict(id=973, pattern="c16-slow-open-client0-server2", ch=0, sh=2, sched=[], end=7000, open_delay=5000))
+    hdir = vlib.outdir(PROP, "hbtraces", clean=True)
+    c17.run_sessions(slow, hdir, par=4)
+    hfiles = sorted(glob.glob(os.path.join(hdir, "c17-*.ndjson")))
+    hconsumed, hbad = vlib.validate_traces("HeartbeatTrace", "HeartbeatTrace.cfg", hfiles, timeout=600, xmx="1g")
+    for b in hbad:
+        v.absorb([dict(b, label="C16:slow-open/" + b["label"].split(":", 1)[1])])
+    consumed += hconsumed
     vlib.write_evidence(
         PROP, tier, seed, t0, mc, traces_validated=tot("evaluations"),
         evaluations=tot("evaluations"), distinct=tot("distinct_nontrivial"),
